@@ -247,6 +247,7 @@ Ev(m, t, env, x, lc, fuel) ==
   CASE t.k = "id" -> One(x)
     [] t.k = "recurse" -> IF HasIErr(v) \/ HasUo(v) THEN End(UnkT) ELSE S(RecAll(x), Ok)
     [] t.k = "num" -> Con(One(Pv0(IntV(t.n))))
+    [] t.k = "bignum" -> Con(One(Pv0(MkInt(Z(t.neg, Strip(t.d))))))     \* an integer literal of any size
     [] t.k = "str" ->
          IF m # "run" THEN PathErr
          ELSE LET part(i) ==
@@ -400,7 +401,7 @@ Upd(t, env, v, u, lc, fuel) ==
     [] t.k = "break" ->
          LET i == FindB(env, {"lbl"}, t.x) IN IF i = 0 THEN End(UnsupT) ELSE End(BrkT(env[i].id))
     [] t.k = "label" -> End(UnkT)        \* no row in the manual's table
-    [] t.k \in {"num", "str", "arr", "obj", "neg", "var", "try"} -> Bad
+    [] t.k \in {"num", "bignum", "str", "arr", "obj", "neg", "var", "try"} -> Bad
     [] OTHER -> End(UnsupT)
 
 \* apply an update closure to a value
@@ -532,10 +533,10 @@ Native(m, name, args, env, x, lc, fuel) ==
          LET s == EvA(1) IN IF ~IsOk(s) THEN End(s.e) ELSE IF s.o = <<>> THEN Emp ELSE One(s.o[Len(s.o)])
     [] name = "limit" ->
          Bind(RunA(1), LAMBDA c : IF ~IsInt(c.v) THEN End(UnkT)
-                                  ELSE IF NumP(c.v) <= 0 THEN Emp ELSE Take(EvA(2), NumP(c.v)))
+                                  ELSE IF IntSgn(c.v) <= 0 THEN Emp ELSE IF IsHuge(c.v) THEN EvA(2) ELSE Take(EvA(2), NumP(c.v)))
     [] name = "skip" ->
          Bind(RunA(1), LAMBDA c : IF ~IsInt(c.v) THEN End(UnkT)
-                                  ELSE LET s == EvA(2)  cnt == NumP(c.v)
+                                  ELSE LET s == EvA(2)  cnt == NumP(c.v)     \* a huge count: 10^9
                                        IN IF cnt <= 0 THEN s
                                           ELSE IF Len(s.o) >= cnt THEN S(SubSeq(s.o, cnt + 1, Len(s.o)), s.e)
                                           ELSE End(s.e))
@@ -558,7 +559,7 @@ Native(m, name, args, env, x, lc, fuel) ==
     [] name = "length" ->
          Con(G(CASE v.t = "null" -> IntV(0)
                  [] v.t = "bool" -> IFail
-                 [] IsInt(v) -> IntV(Abs(NumP(v)))
+                 [] IsInt(v) -> IF IntSgn(v) < 0 THEN IntNeg(v) ELSE v
                  [] v.t = "flt" -> FltV(Abs(v.p), v.q)
                  [] v.t \in {"str", "bytes", "arr"} -> IntV(Length(v))
                  [] v.t = "obj" -> IntV(Len(v.o))
